@@ -897,6 +897,9 @@ func (engine *Engine) readConnBlocking(conn *Conn, parser *Parser, decrease func
 		readBufferPool.Free(pbuf)
 		if !conn.Trasfered {
 			parserCloser.CloseAndClean(err)
+			// the read loop has ended (read error, deadline or parse
+			// error): nobody else is going to close this connection.
+			_ = conn.Close()
 		}
 		engine.mux.Lock()
 		switch vt := conn.Conn.(type) {
